@@ -311,6 +311,32 @@ func runC16(r *vk.Run) {
 			c.Eval(1)
 			c.Count("malformed_rejected_checks", 1)
 		}
+		// a malformed value is rejected whatever the other flags are: an explicit --start does not make a
+		// malformed --since harmless, nor the other way round
+		okStart, okEnd, okSince := []*string{nil, sp("1699990000"), sp("2023-11-14T20:00:00Z")}, []*string{nil, sp("1699999000"), sp("1699999000.5")}, []*string{nil, sp("2h"), sp("30m")}
+		for _, a := range okStart {
+			for _, e := range okEnd {
+				for _, si := range okSince {
+					for _, b := range badTimes {
+						if _, _, err := Cmd.TimeRange(now, sp(b), e, si); err == nil {
+							c.Fail("", fmt.Sprintf("malformed --start %q accepted next to end=%v since=%v", b, strp(e), strp(si)), map[string]any{"flag": "start", "value": b, "end": e, "since": si})
+						}
+						if _, _, err := Cmd.TimeRange(now, a, sp(b), si); err == nil {
+							c.Fail("", fmt.Sprintf("malformed --end %q accepted next to start=%v since=%v", b, strp(a), strp(si)), map[string]any{"flag": "end", "value": b, "start": a, "since": si})
+						}
+						c.Eval(2)
+						c.Count("malformed_rejected_checks", 2)
+					}
+				}
+				for _, b := range badDur {
+					if _, _, err := Cmd.TimeRange(now, a, e, sp(b)); err == nil {
+						c.Fail("", fmt.Sprintf("malformed --since %q accepted next to start=%v end=%v", b, strp(a), strp(e)), map[string]any{"flag": "since", "value": b, "start": a, "end": e})
+					}
+					c.Eval(1)
+					c.Count("malformed_rejected_checks", 1)
+				}
+			}
+		}
 		start, end := now.Add(-time.Hour), now
 		badStep := []string{"", "abc", "1.5h", "1h1h", "1m1h", "inf", "Inf", "+Inf", "-Inf", "NaN", "nan", "0", "0.0", "-5", "-0.5", "0s", "0ms", "-1s", "1e400", "h", "1 s", "0x", "--1", "1..5"}
 		for _, b := range badStep {
